@@ -15,7 +15,9 @@ EXPLAIN = ('ITS (structural, necessary clauses): (R1) interchain_transfer: every
            'received-event / executable call carry the same decoded terms; (R6) who-may-move-tokens: token-moving client '
            'calls occur only at the take (interchain_transfer), the give (execute) and the initial-supply mint '
            '(deploy_interchain_token); custody outflow (transfer from self) only in execute; (R7) the clauses of the statement that live in the called '
-           'contracts are evaluated too: gas service pay_gas (C14), gateway call_contract (C13), token burn/mint/transfer exactness (C12.R1/R2).')
+           'contracts are evaluated too: gas service pay_gas (C14), gateway call_contract (C13), token burn/mint/transfer exactness (C12.R1/R2), '
+           'and "currently trusted": TrustedChain(_) is set / removed only by its owner-authorised entries and removal really removes the entry '
+           'the outbound guard tests (C04.R2).')
 NOT_DECIDED = ('the conservation equations over histories (custody = locked - released, supply accounting) are decided only through their inductive '
                'step (R1/R2/R5/R6: one take or give per successful call, of exactly the announced / decoded amount, on the registered token, and no other '
                'custody movement anywhere); the induction itself, direct third-party transfers, the inside of foreign token contracts (T8) and '
@@ -196,6 +198,10 @@ def check(P, rep):
     include_rules(P, rep, 'C05.R7', 'c10', lambda o: o['rule'] in ('C10.R5', 'C10.R1') or (o['rule'] == 'C10.R3' and 'InterchainTransfer' in o['what']) or
                   (o['rule'] == 'FLOOR' and 'amount' in o['what']),
                   'the amount / token id / addresses credited are exactly the announced ones (strict decode, range-checked amount conversion, field mapping)', 15)
+    include_rules(P, rep, 'C05.R7', 'c04', lambda o: o['rule'] == 'C04.R2' and any(x in o['what'] for x in
+                                                                          ('TrustedChain(chain) before every success exit', 'TrustedChain(_) is set / removed only under',
+                                                                           'is_trusted_chain returns presence')),
+                  '"currently trusted" destination: the trust set changes exactly as its two owner-only admin entries say, and removal really removes the entry the outbound guard tests', 5)
     # ---- R6 who-may-move-tokens
     nm = 0
     for cn, en in P.all_entries():
